@@ -4,6 +4,7 @@ from .common import *
 from vsym.core import s_ite
 
 PROPERTY = 'C12'
+PYTHON_O = ['pack/3-tags']      # obligations that are also explored with the modules compiled as under python -O
 ASSUMPTIONS = [
     'PDS tags are concrete distinct 4-digit strings (a fixed family per obligation); value content opaque, value lengths symbolic 0..992',
     'capacity assumption of the property: the greedy packing of the set fits the five configured carriers (48, 62, 123, 124, 125)',
@@ -91,6 +92,7 @@ def obligations(tier):
     obs = [
         Ob('pack/2-tags', pack(['0023', '0158']), 120, 'two tags, every pair of value lengths 0..992', _funcs),
         Ob('pack/3-tags', pack(['0158', '0023', '0001']), 300, 'three tags (given out of order), every triple of value lengths 0..992', _funcs),
+        Ob('pack/extreme-tags', pack(['9999', '0000', '1000']), 300, 'the lowest and the highest tag (0000, 9999) and one in between, every triple of value lengths 0..992', _funcs),
         Ob('pack/3-tags/cp500', pack(['0105', '0148', '0165'], 'cp500'), 300, 'three tags, cp500', _funcs),
     ]
     obs.append(Ob('pack/6-tags', pack(['0001', '0002', '0003', '0004', '0005', '0006']), 2400,
